@@ -14,6 +14,7 @@ pub(super) fn generate_method_impl(
     interface_name: &str,
     trait_generics: &syn::Generics,
     method_attrs: &MethodAttrs,
+    param_renames: &[Option<String>],
     crate_path: &TokenStream,
 ) -> Result<TokenStream, Error> {
     let method_name = &method.sig.ident;
@@ -33,7 +34,7 @@ pub(super) fn generate_method_impl(
     let method_output = method.sig.output.clone();
 
     // Process all method arguments in a single pass
-    let arg_infos = parse_method_arguments(method, has_explicit_lifetimes)?;
+    let arg_infos = parse_method_arguments(method, has_explicit_lifetimes, param_renames)?;
 
     // Extract the data we need from the processed arguments
     let arg_names: Vec<_> = arg_infos.iter().map(|info| info.name).collect();
@@ -134,7 +135,9 @@ pub(super) fn generate_method_impl(
 fn parse_method_arguments<'a>(
     method: &'a mut syn::TraitItemFn,
     has_explicit_lifetimes: bool,
+    param_renames: &[Option<String>],
 ) -> Result<Vec<ArgInfo<'a>>, Error> {
+    let mut renames = param_renames.iter();
     method
         .sig
         .inputs
@@ -151,10 +154,8 @@ fn parse_method_arguments<'a>(
             let name = &pat_ident.ident;
             let ty = &pat_type.ty;
 
-            // Extract parameter rename attribute
-            let serialized_name = extract_param_rename_attr(&mut pat_type.attrs)
-                .ok()
-                .flatten();
+            // The parameter's wire name, if renamed
+            let serialized_name = renames.next().cloned().flatten();
 
             // Check if the type is optional
             let is_optional = is_option_type(ty);
@@ -241,23 +242,7 @@ fn generate_method_params(
             let name = info.name;
             let ty = &info.ty_for_params;
 
-            let serde_attrs = if let Some(ref renamed) = info.serialized_name {
-                if info.is_optional {
-                    quote! {
-                        #[serde(rename = #renamed, skip_serializing_if = "Option::is_none")]
-                    }
-                } else {
-                    quote! {
-                        #[serde(rename = #renamed)]
-                    }
-                }
-            } else if info.is_optional {
-                quote! {
-                    #[serde(skip_serializing_if = "Option::is_none")]
-                }
-            } else {
-                quote! {}
-            };
+            let serde_attrs = param_serde_attrs(info);
 
             quote! {
                 #serde_attrs
